@@ -133,6 +133,13 @@ fn c09_target(w: &mut World, cfg: &RunCfg, ops: &[Op], i: usize) -> Res {
         Ok(Ok(m)) => digest(&m).ok(),
         _ => None,
     };
+    let nothing_held_back = {
+        let st0 = RefState::from_items(&snaps[0]);
+        st0.blocks.len() == st0.complete.len()
+    };
+    if !nothing_held_back {
+        w.bump("probe.c09_target_with_held_back_block");
+    }
     // --- crash at every write boundary: only what was durable survives
     for (k, snap) in snaps.iter().enumerate() {
         w.bump("enum.crash_points");
@@ -155,7 +162,11 @@ fn c09_target(w: &mut World, cfg: &RunCfg, ops: &[Op], i: usize) -> Res {
             return Err(Stop::Violation(v));
         }
         if is_commit {
-            if Some(&d) != pre.as_ref() && Some(&d) != post.as_ref() {
+            // "either the previous or the new state": only when nothing foreign is held back — a
+            // held-back foreign block can become complete through this commit's pack alone (same
+            // objects, same pack), which is a third legitimate state; per-commit atomicity is then
+            // still decided by the comparison with RefStore(snapshot) above.
+            if nothing_held_back && Some(&d) != pre.as_ref() && Some(&d) != post.as_ref() {
                 viol!(w, "commit-all-or-nothing", "crash-mixed-state", "op #{} (commit) crash at write boundary {}/{}: the restarted replica sees neither the previous nor the new state: vs previous: {}; vs new: {}", i + 1, k, nwrites,
                     pre.as_ref().map(|p| diff_digest(p, &d)).unwrap_or_default(), post.as_ref().map(|p| diff_digest(p, &d)).unwrap_or_default());
             }
